@@ -99,7 +99,7 @@ def random_edit(rng, toks, pool):
     return ('rep', i, r), toks[:i] + [r] + toks[i + 1:]
 
 # ------------------------------------------------------------------ generated documents
-def generated(run, n, size=60, depth=8, small=False, tag='gen'):
+def generated(run, n, size=60, depth=7, small=False, tag='gen'):
     """n abstract documents -> [(abstract doc, features, rendering1, rendering2, valid, w1, w2, i1, i2, denote dump)]"""
     rng = run.rng
     docs, lines = [], []
